@@ -84,6 +84,47 @@ Theorem C04_owner_from_request : forall ops t,
 Proof. exact owner_from_request_init. Qed.
 Print Assumptions C04_owner_from_request.
 
+(* ---- an undeliverable reply changes nothing ----------------------------------------------------- *)
+(* Reply delivery is an INPUT of the worker loop ([worker_step s rq deliverable], transcribing _RpcThread.run
+   with its send-failure path).  Whatever the delivery outcomes of a history, the lock state, the execution
+   log and the replies produced are the same: the owner changes only by the three events of C04_mutex, never
+   because a requester vanished — not even a fresh grant to a vanished client is taken back (the property
+   says "released only by an unlock carrying the owner's token or by force-unlock"). *)
+Theorem C04_reply_loss_changes_nothing : forall l1 l2 s,
+  map fst l1 = map fst l2 ->
+  fst (worker_run s l1) = fst (worker_run s l2) /\
+  map fst (snd (worker_run s l1)) = map fst (snd (worker_run s l2)).
+Proof. exact worker_run_loss. Qed.
+Print Assumptions C04_reply_loss_changes_nothing.
+
+(* the worker loop is exactly the lock machine plus the gate; the delivery flag only says whether the
+   requester receives the reply *)
+Theorem C04_worker_is_lock_machine : forall s rq d,
+  worker_step s rq d =
+  match rq with
+  | RqLock a t => (mkW (fst (lock_step (w_owner s) a t)) (w_log s), (WLock (snd (lock_step (w_owner s) a t)), d))
+  | RqCall t x => if method_gate (w_owner s) t
+                  then (mkW (w_owner s) (w_log s ++ [x]), (WExec true, d)) else (s, (WExec false, d))
+  end.
+Proof. exact worker_step_spec. Qed.
+Print Assumptions C04_worker_is_lock_machine.
+
+(* proxies: a lost reply leaves owner and log as if it had been delivered; only the proxy's own memory stays *)
+Theorem C04_reply_loss_proxy : forall s o d,
+  owner (fst (sys_step_d s o d)) = owner (fst (sys_step s o)) /\
+  log (fst (sys_step_d s o d)) = log (fst (sys_step s o)) /\
+  (d = true -> sys_step_d s o d = (fst (sys_step s o), Some (snd (sys_step s o)))) /\
+  (d = false -> ptok (fst (sys_step_d s o d)) = ptok s /\ snd (sys_step_d s o d) = None).
+Proof. exact sys_step_d_loss. Qed.
+Print Assumptions C04_reply_loss_proxy.
+
+(* C04_held_until_released with lost replies anywhere in the history *)
+Theorem C04_held_until_released_lossy : forall l s t,
+  owner s = Some t -> no_release_d s l t ->
+  owner (fst (sys_run_d s l)) = Some t /\ Forall (fun e => fst e = Some t) (executed_d s l).
+Proof. exact held_until_released_d. Qed.
+Print Assumptions C04_held_until_released_lossy.
+
 (* ---- only the owner gets through ------------------------------------------------------------ *)
 Theorem C04_gate : forall o t,
   method_gate o t = true <-> o = None \/ (exists w, o = Some w /\ t = Some w).
@@ -260,3 +301,15 @@ Example C04_example_generated :
   generated gen_token (cfg_of [mkCtx 1 11 7; mkCtx 2 12 7; mkCtx 1 11 7]) init_pst [PLock 0 None; PLock 1 None; PLock 2 None]
   = [(7, TAuto 11 1); (7, TAuto 12 1); (7, TAuto 11 2)]%N.
 Proof. vm_compute. reflexivity. Qed.
+
+(* proxy 0 holds the lock with custom token A; proxy 1 (sharing A on purpose) re-acquires it but its reply is
+   lost; proxy 2 still cannot get in, proxy 0 still can; nothing released the lock *)
+Example C04_example_lost_idempotent_grant :
+  let l := [(OLock 0 tA, true); (OLock 1 tA, false); (OIsLocked 2, true); (OLock 2 tB, true);
+            (OCall 2 8, true); (OCall 0 9, true)] in
+  snd (sys_run_d init_sys l) = [Some (OutBool true); None; Some (OutBool true); Some (OutBool false);
+                                Some (OutExec false); Some (OutExec true)]
+  /\ owner (fst (sys_run_d init_sys l)) = Some tA
+  /\ no_release_d (fst (sys_run_d init_sys [(OLock 0 tA, true)]))
+                  [(OLock 1 tA, false); (OIsLocked 2, true); (OLock 2 tB, true); (OCall 2 8, true)] tA.
+Proof. vm_compute. repeat split; try (intro H; exact H). Qed.
